@@ -153,7 +153,7 @@ NoOp == [op |-> "none"]
 NoWorld == [good |-> <<>>, goods |-> <<>>, opt_host |-> "", opt_port |-> 0, root |-> FALSE]
 MonInit == [bad |-> <<>>, wit |-> {}, w |-> NoWorld, sp |-> <<>>, mode |-> <<>>, server |-> TRUE, psrun |-> FALSE,
             synced |-> FALSE, cur |-> NoOp, open |-> <<>>, failed |-> {}, listed |-> <<>>, lastchg |-> <<>>,
-            keep |-> {}, alones |-> {}, direct |-> [op |-> "none", err |-> ""], gspec |-> {}, ran |-> {}, freed |-> {}, fresh |-> {}]
+            keep |-> {}, alones |-> {}, direct |-> [op |-> "none", err |-> ""], gspec |-> {}, ran |-> {}, freed |-> {}, fresh |-> {}, lastop |-> "none"]
 
 Protos(tp) == IF tp = "both" THEN {"tcp", "udp"} ELSE {tp}
 Eff(mode, server) == IF server THEN mode ELSE <<>>
@@ -247,7 +247,7 @@ StateWit(m, ev) ==
   \cup (IF ~ev.busy /\ m.synced /\ ~m.server /\ m.mode # <<>> THEN {"server_off"} ELSE {})
   \cup (IF ~ev.busy /\ m.synced /\ m.keep # {} /\ m.keep \subseteq Gens(I) THEN {"instance_kept"} ELSE {})
   \cup (IF ev.busy THEN {"update_in_progress"} ELSE {})
-  \cup (IF ev.busy /\ ev.blocked # <<>> /\ m.cur.op \in {"set_mode", "set_server"} THEN {"option_changed_during_update"} ELSE {})
+  \cup (IF ev.busy /\ ev.blocked # <<>> /\ m.lastop \in {"set_mode", "set_server"} THEN {"option_changed_during_update"} ELSE {})
   \cup (IF \E j \in 1..Len(I) : I[j].run /\ Len(I[j].addrs) >= 3 THEN {"dual_transport"} ELSE {})
   \cup (IF \E j \in 1..Len(I) : I[j].run /\ m.sp[I[j].spec].lport = 0 THEN {"port_zero"} ELSE {})
   \cup (IF \E j \in 1..Len(I) : I[j].run /\ m.sp[I[j].spec].lhost # "" THEN {"explicit_host"} ELSE {})
@@ -263,8 +263,9 @@ MonStep(m, ev) ==
          [m EXCEPT !.sp = Append(@, ev), !.wit = @ \cup SpecWit(m.w, ev),
                    !.bad = IF ev.id # Len(m.sp) + 1 THEN <<"X02.trace_malformed", "spec_id">> ELSE SpecBad(m.w, ev)]
     [] ev.k = "op" ->
-         [m EXCEPT !.cur = ev, !.direct = [op |-> "none", err |-> ""],
+         [m EXCEPT !.cur = ev, !.direct = [op |-> "none", err |-> ""], !.lastop = ev.op,
                    !.failed = IF ev.op = "istart" THEN @ \ {ev.gen} ELSE @,
+                   !.ran = IF ev.op = "istart" THEN @ \ {ev.gen} ELSE @,
                    \* the update may run inside the call (eager tasks): what must be kept is decided when the call begins
                    !.keep = IF ev.op = "set_mode" THEN KeepFor(m, Eff(ev.cfg, m.server))
                             ELSE IF ev.op = "set_server" THEN KeepFor(m, Eff(m.mode, ev.on)) ELSE @,
@@ -301,6 +302,7 @@ MonStep(m, ev) ==
                    !.bad = IF ev.res = "EADDRINUSE" /\ ev.hold > 0 /\ ev.hold # ev.gen /\ ev.hold \notin lg
                            THEN <<"X02.port_not_freed_before_start", IF ev.hold \in m.ran THEN "holder_removed" ELSE "holder_failed_start">>
                            ELSE <<>>]
+    [] ev.k \in {"ext_bind", "ext_free"} -> [m EXCEPT !.lastop = ev.k]
     [] ev.k = "close" ->
          [m EXCEPT !.open = SelectSeq(@, LAMBDA s : s.sid # ev.sid),
                    !.freed = @ \cup {<<s.tp, s.host, s.port, s.gen>> : s \in {x \in ToSet(m.open) : x.sid = ev.sid}},
